@@ -328,7 +328,7 @@ class Array(metaclass=MetaArray):
                     value = None
                 else:
                     shape = get_shape_from_array(arg, len(cls._shape))
-                    if shape != cls._shape:
+                    if tuple(shape) != tuple(cls._shape):
                         raise ValueError(f"shape not valid for {arg} ")
                     value = arg
             elif len(args) > 1:
